@@ -125,7 +125,14 @@ def main():
             path = os.path.join(W, rel)
             lines = open(path).read().split("\n")
             cand = []
+            in_comment = False
             for i, line in enumerate(lines):
+                if in_comment:
+                    if "*/" in line:
+                        in_comment = False
+                    continue
+                if "/*" in line and "*/" not in line[line.find("/*"):]:
+                    in_comment = True  # the code before the comment opener is still considered
                 code = code_part(line)
                 if code is None:
                     continue
@@ -158,7 +165,7 @@ def main():
                         for p in props:
                             runs = max(500, int(RUNS[p] * scale))
                             r = subprocess.run([os.path.join(V, "check"), p, "--runs", str(runs), "--max-seconds", "40", "--out", "/tmp/mutw_out/" + p, "--evidence", "/tmp/mutw_out/ev_%s.json" % p],
-                                               env=dict(os.environ, VERIF_REPO=W), stdout=subprocess.PIPE, stderr=subprocess.STDOUT)
+                                               env=dict(os.environ, VERIF_REPO=W, VERIF_FAST="1"), stdout=subprocess.PIPE, stderr=subprocess.STDOUT)
                             o = r.stdout.decode(errors="replace")
                             if r.returncode == 1:
                                 status = "DETECTED"
